@@ -1,15 +1,145 @@
 package main
 
 import (
+	"context"
 	"encoding/json"
 	"fmt"
+	"go/types"
 	"os"
+	"os/exec"
+	"path/filepath"
+	"sort"
+	"strings"
+	"time"
+
+	"golang.org/x/tools/go/ssa"
 )
 
-// tryReplay concretises the solver's model into inputs for the real function and
-// runs it (see replaygen.go for the per-shape generators). Returns true when the
-// counterexample reproduced on the real code.
+// tryReplay runs the real function on a concrete input and reports whether the failure
+// the obligation describes shows up. It is implemented for one shape only: a refuted
+// (sat) safety obligation of a top-level function or method. The input is the "empty
+// heap" instance of the solver's counterexample: every pointer parameter (and the
+// receiver) points to a zero-valued struct, so every pointer, map, slice, interface and
+// channel field is nil and every string empty; other parameters are zero values. The
+// function is called from a test injected with `go test -overlay` (nothing is written to
+// the repository); a panic is the failing run. Anything else - closures, functional
+// postconditions, models that need a populated heap - is not replayed, and the
+// VIOLATION line then ends with no-failing-input-found.
 func (v *Verifier) tryReplay(prop string, o *Oblig, rec map[string]interface{}) bool {
+	if os.Getenv("GVC_NOREPLAY") != "" || o.ex == nil || o.Status != "failed" {
+		return false
+	}
+	if !strings.HasPrefix(o.Kind, "safe") && !strings.Contains(o.Name, "#safe:") {
+		return false
+	}
+	fn := o.ex.root().fn
+	if fn == nil || fn.Parent() != nil || fn.Pkg == nil || fn.Synthetic != "" {
+		return false
+	}
+	if o.Func != v.funcKey(fn) {
+		return false // the failing instruction is inside an inlined callee or a closure
+	}
+	pkg := fn.Pkg.Pkg
+	dir := strings.TrimPrefix(strings.TrimPrefix(pkg.Path(), v.Module), "/")
+	if dir == "" {
+		dir = "."
+	}
+	imports := map[string]string{}
+	qual := func(p *types.Package) string {
+		if p == pkg {
+			return ""
+		}
+		imports[p.Path()] = p.Name()
+		return p.Name()
+	}
+	zero := func(t types.Type) (string, bool) {
+		ts := types.TypeString(t, qual)
+		if strings.Contains(ts, "/") { // an unresolved qualifier (vendored / internal path)
+			return "", false
+		}
+		if pt, ok := t.(*types.Pointer); ok {
+			if _, isStruct := pt.Elem().Underlying().(*types.Struct); isStruct {
+				return "&" + types.TypeString(pt.Elem(), qual) + "{}", true
+			}
+		}
+		return "*new(" + ts + ")", true
+	}
+	sig := fn.Signature
+	var decls, args, desc []string
+	call := ""
+	if sig.Recv() != nil {
+		z, ok := zero(sig.Recv().Type())
+		if !ok {
+			return false
+		}
+		decls = append(decls, "recv := "+z)
+		desc = append(desc, "receiver = "+z)
+		call = "recv." + fn.Name()
+	} else {
+		call = fn.Name()
+	}
+	for i := 0; i < sig.Params().Len(); i++ {
+		p := sig.Params().At(i)
+		z, ok := zero(p.Type())
+		if !ok {
+			return false
+		}
+		if sig.Variadic() && i == sig.Params().Len()-1 {
+			continue // no variadic arguments
+		}
+		decls = append(decls, fmt.Sprintf("a%d := %s", i, z))
+		args = append(args, fmt.Sprintf("a%d", i))
+		n := p.Name()
+		if n == "" {
+			n = fmt.Sprintf("arg%d", i)
+		}
+		desc = append(desc, n+" = "+z)
+	}
+	// unexported foreign names cannot be written down
+	for path := range imports {
+		if strings.Contains(path, "/internal/") || strings.HasSuffix(path, "/internal") {
+			return false
+		}
+	}
+	var imps []string
+	for path := range imports {
+		imps = append(imps, fmt.Sprintf("\t%q", path))
+	}
+	sort.Strings(imps)
+	src := "package " + pkg.Name() + "\n\nimport (\n\t\"fmt\"\n\t\"testing\"\n" + strings.Join(imps, "\n") + "\n)\n\n" +
+		"func TestGvcReplay(t *testing.T) {\n" +
+		"\tdefer func() {\n\t\tif r := recover(); r != nil {\n\t\t\tfmt.Println(\"GVC-REPLAY-PANIC:\", r)\n\t\t}\n\t}()\n\t" +
+		strings.Join(decls, "\n\t") + "\n\t" + call + "(" + strings.Join(args, ", ") + ")\n" +
+		"\tfmt.Println(\"GVC-REPLAY-NOPANIC\")\n}\n"
+	tmp, err := os.MkdirTemp("", "gvc-replay-")
+	if err != nil {
+		return false
+	}
+	defer os.RemoveAll(tmp)
+	testFile := filepath.Join(tmp, "zz_gvc_replay_test.go")
+	os.WriteFile(testFile, []byte(src), 0o644)
+	target := filepath.Join(v.Repo, dir, "zz_gvc_replay_test.go")
+	ov, _ := json.Marshal(map[string]map[string]string{"Replace": {target: testFile}})
+	ovFile := filepath.Join(tmp, "overlay.json")
+	os.WriteFile(ovFile, ov, 0o644)
+	ctx, cancel := context.WithTimeout(context.Background(), 120*time.Second)
+	defer cancel()
+	cmd := exec.CommandContext(ctx, "go", "test", "-overlay", ovFile, "-vet=off", "-v", "-count=1", "-timeout", "60s", "-run", "^TestGvcReplay$", "./"+dir)
+	cmd.Dir = v.Repo
+	cmd.Env = append(os.Environ(), "GOFLAGS=-mod=mod", "GOPROXY=off", "GOSUMDB=off", "GOTOOLCHAIN=local")
+	out, _ := cmd.CombinedOutput()
+	text := string(out)
+	rec["replay_test"] = src
+	rec["replay_cmd"] = "go test -overlay <overlay injecting the test above as " + target + "> -vet=off -run ^TestGvcReplay$ ./" + dir
+	for _, ln := range strings.Split(text, "\n") {
+		if strings.HasPrefix(ln, "GVC-REPLAY-PANIC:") {
+			rec["inputs"] = strings.Join(desc, "; ")
+			rec["expected"] = "no panic (" + o.Src + ")"
+			rec["observed"] = strings.TrimSpace(strings.TrimPrefix(ln, "GVC-REPLAY-PANIC:"))
+			return true
+		}
+	}
+	rec["replay_output"] = firstLines(text, 12)
 	return false
 }
 
@@ -27,6 +157,11 @@ func runReplay(path, repo, verif string) int {
 	fmt.Printf("obligation: %v\nclause: %v\nposition: %v\nresult: %v (%v)\n", rec["obligation"], rec["clause"], rec["position"], rec["solver_result"], rec["solvers"])
 	if rec["kind"] == "counterexample" {
 		fmt.Printf("inputs: %v\nexpected: %v\nobserved: %v\n", rec["inputs"], rec["expected"], rec["observed"])
+		if t, ok := rec["replay_test"].(string); ok {
+			fmt.Printf("test injected into the package of the function:\n%s\n", t)
+		}
 	}
 	return 0
 }
+
+var _ = ssa.BuilderMode(0)
